@@ -22,4 +22,5 @@ props! {
     c15: C15: "C15",
     c16: C16: "C16",
     c17: C17: "C17",
+    c19: C19: "C19",
 }
